@@ -44,7 +44,11 @@ func (w *World) Do(op Op) {
 	case "Convert":
 		w.Convert(op.Fn, a[0], a[1])
 	case "ChanIndex":
-		w.ChanIndex(a[0], a[1], a[2])
+		arg := a[1]
+		if len(a) > 3 {
+			arg = a[3]
+		}
+		w.ChanIndex(a[0], a[1], a[2], arg)
 	case "ChanSample":
 		w.ChanSample(a[0], a[1], a[2])
 	case "ChanSet":
@@ -293,6 +297,8 @@ func RandomHistory(w *World, rng *rand.Rand, o HistOpts) {
 				w.Do(Op{K: k, A: []int{vi, c, i, int(w.NextStamp())}})
 			case "ChanShape":
 				w.Do(Op{K: k, A: []int{vi, c}})
+			case "ChanIndex":
+				w.Do(Op{K: k, A: []int{vi, c, i, rng.Intn(v.Channels() + 1)}})
 			default:
 				w.Do(Op{K: k, A: []int{vi, c, i}})
 			}
